@@ -71,9 +71,20 @@ func (sr *sessRun) script(toks []string) {
 		switch t[0] {
 		case 'c':
 			sr.trace = append(sr.trace, t)
-			sr.start(num())
+			i := num()
+			sr.start(i)
+			if sr.rstate[i] == "ret" && strings.HasPrefix(next, "f") {
+				idx++ // the model's f<i>: the call failed at once (start recorded it)
+			}
+		case 'C':
+			sr.trace = append(sr.trace, t)
+			sr.outClosed = true
+			common.WithTimeout(watchdog, func() { sr.rs.S.Close() })
 		case 'o', 'f':
 			i := num()
+			if t[0] == 'f' {
+				sr.broken = true
+			}
 			sr.trace = append(sr.trace, t)
 			label := "r" + strconv.Itoa(i)
 			sr.gates[i].fail <- t[0] == 'f'
@@ -177,7 +188,9 @@ func (sr *sessRun) feedScript(p peerStanza, expectHandler bool) {
 		sr.hlog = append(sr.hlog, k)
 		sr.trace = append(sr.trace, "H"+strconv.Itoa(k))
 	}
-	if autoReply {
+	if autoReply && (sr.broken || sr.outClosed) {
+		sr.awaitServeEnd()
+	} else if autoReply {
 		for dl := time.Now().Add(watchdog); sr.rs.Out.Len() == outBefore && time.Now().Before(dl); {
 			time.Sleep(20 * time.Microsecond)
 		}
